@@ -131,10 +131,43 @@ def u_done(c):
     c.oblige("failure/secondary-queue-started-iff-timer-was-armed",
              len(nxt_other) == (1 if (has_t and nsec > 0) else 0) and k.timeout is None and (t is None or t.removed))
     c.oblige("failure/new-streams-tracked", all(a[2] in k.streams for a in new))
+    # "... or the timeout fired": while the connect is undecided the overall connect timeout must stay armed, or a silent later address leaves it pending for ever
+    c.oblige("failure/connect-timeout-stays-armed-while-undecided",
+             Implies(st(k.future) == PENDING, ct is None or ((not ct.removed) and k.connect_timeout is ct)))
     exhausted = pos >= nprim and not (has_t and nsec > 0)
     c.oblige("failure/fails-only-when-every-address-completed",
              Implies(st(k.future) != PENDING, And(k.remaining == 0, exhausted, st(k.future) == EXC)))
     c.oblige("failure/all-failed-settles-with-error", Implies(And(k.remaining == 0, exhausted), st(k.future) == EXC))
+
+
+INIT_LISTS = [[(1, "a")], [(1, "a"), (1, "b")], [(1, "a"), (2, "c")], [(2, "c"), (1, "a"), (2, "d")], [(1, "a"), (1, "a")], [(1, "a"), (2, "c"), (1, "a")],
+              [(1, "a"), (2, "c"), (2, "c"), (1, "b")], [(1, "a"), (3, "x"), (2, "c")], [(2, "c"), (2, "c"), (2, "c"), (1, "a")]]
+
+
+@unit("C10", "_Connector.__init__+split", [(M, "_Connector.__init__"), (M, "_Connector.split")],
+      bounded="finite case analysis: %d address lists of <= 4 entries (repeated entries, three families, either family first)" % len(INIT_LISTS))
+def u_init(c):
+    """establishes the accounting invariant the callback units assume (J4): remaining counts exactly the addresses queued, every resolved address is queued (a repeated entry at most as often as listed), first-family entries in order in the primary queue, all others in order in the secondary."""
+    import tornado.tcpclient as T
+    addrinfo = c.choose("addrinfo", INIT_LISTS)
+    k = T._Connector.__new__(T._Connector)
+    with c.patched((T.IOLoop, "current", staticmethod(lambda: H.loop_double(c))), (T, "Future", (H.new_future if c.symbolic else H.heap(c).new))):
+        out = c.call(c.fn(M, "_Connector.__init__"), k, list(addrinfo), lambda af, addr: None)
+    c.only_raises(out, ())
+    if not out.returned:
+        return
+    prim, sec = list(k.primary_addrs), list(k.secondary_addrs)
+    c.oblige("init/remaining-counts-the-queued-addresses", k.remaining == len(prim) + len(sec))
+    from collections import Counter
+    listed, queued = Counter(addrinfo), Counter(prim + sec)
+
+    def subseq(xs, ys):
+        it = iter(ys)
+        return all(any(x == y for y in it) for x in xs)
+    c.oblige("init/every-resolved-address-queued-and-none-more-often-than-listed", set(queued) == set(listed) and all(queued[a] <= listed[a] for a in queued))
+    c.oblige("init/primary-is-the-first-family-in-resolver-order", all(a[0] == addrinfo[0][0] for a in prim) and subseq(prim, addrinfo))
+    c.oblige("init/secondary-is-every-other-family-in-resolver-order", all(a[0] != addrinfo[0][0] for a in sec) and subseq(sec, addrinfo))
+    c.oblige("init/undecided-nothing-open", st(k.future) == PENDING and len(k.streams) == 0 and k.timeout is None and k.connect_timeout is None and k.last_error is None)
 
 
 @unit("C10", "_Connector.timers", [(M, "_Connector.on_timeout"), (M, "_Connector.on_connect_timeout"), (M, "_Connector.start"),
@@ -203,7 +236,10 @@ def standin(tier, seed):
             def connect(af, addr):
                 s = FakeStream(addr)
                 f = asyncio.get_event_loop().create_future()
-                idx = [a for a in addrinfo].index((af, addr))
+                idx = next((i for i, a in enumerate(addrinfo) if a == (af, addr) and i not in streams), None)    # a repeated entry is its own attempt
+                if idx is None:
+                    started.append(addrinfo.index((af, addr)))         # reported below as attempted more than once
+                    return s, f
                 streams[idx] = (s, f, af)
                 started.append(idx)
                 inflight[af].add(idx)
@@ -213,7 +249,7 @@ def standin(tier, seed):
                     inflight[af].discard(idx)
                 return s, f
             k = T._Connector(addrinfo, connect)
-            fut = k.start(0.3, 10.0 if use_ct else None)
+            fut = k.start(0.3, v.now + 10.0 if use_ct else None)     # an absolute deadline, as TCPClient.connect passes it
             settled_at = [None]
             fut.add_done_callback(lambda f: settled_at.__setitem__(0, len(log)))
             done_async = 0
@@ -281,11 +317,11 @@ def standin(tier, seed):
                 v.advance(10.0); await v.settle()
             # ---- clauses
             if len(started) != len(set(started)):
-                return "an address was attempted more than once: %r" % started
+                return "an address was attempted more often than the resolver listed it: %r" % started
             for af in (AF1, AF2):
                 if inflight_max[af] > 1:
                     return "more than one attempt in flight for one address family"
-            all_done = all(f.done() for (s, f, af) in streams.values()) and len(streams) == len(addrinfo)
+            all_done = all(f.done() for (s, f, af) in streams.values()) and {addrinfo[i] for i in streams} == set(addrinfo)     # every distinct address attempted and completed
             if fut.done():
                 if fut.cancelled():
                     return "result future cancelled"
@@ -320,9 +356,9 @@ def standin(tier, seed):
         return vloop.run_history(main)
 
     shapes = [[(AF1, "a")], [(AF1, "a"), (AF1, "b")], [(AF1, "a"), (AF2, "c")], [(AF1, "a"), (AF1, "b"), (AF2, "c")],
-              [(AF1, "a"), (AF2, "c"), (AF2, "d")], [(AF1, "a"), (AF1, "b"), (AF2, "c"), (AF2, "d")]]
+              [(AF1, "a"), (AF2, "c"), (AF2, "d")], [(AF1, "a"), (AF1, "a")], [(AF1, "a"), (AF2, "c"), (AF1, "a")], [(AF1, "a"), (AF1, "b"), (AF2, "c"), (AF2, "d")]]
     if tier == "quick":
-        shapes = shapes[:5]
+        shapes = shapes[:7]
     for addrinfo in shapes:
         n = len(addrinfo)
         for outcomes in itertools.product(["ok", "fail", "sync", "never"], repeat=n):
@@ -333,12 +369,7 @@ def standin(tier, seed):
                     for timer_pos in range(0, len(order) + 2):
                         for ct_pos in ((0, len(order) + 1) if use_ct else (99,)):
                             evals += 1
-                            try:
-                                fail = case(addrinfo, outcomes, order, use_ct, timer_pos, ct_pos)
-                            except Exception as e:
-                                fail = None
-                                if len(samples) < 6:
-                                    samples.append({"harness_error": "%s: %s" % (type(e).__name__, e)})
+                            fail = case(addrinfo, outcomes, order, use_ct, timer_pos, ct_pos)     # a harness exception is a checker crash (exit 3), never a pass
                             if "fail" in outcomes or "sync" in outcomes:
                                 nontriv.add((tuple(addrinfo), outcomes, order, use_ct, timer_pos, ct_pos))
                             if fail and len(failures) < 3:
